@@ -223,7 +223,7 @@ class AtomicTransaction(StoreTransaction):
                 attempts, max_attempts, version
             ) VALUES (
                 :message_id, :message_type, :payload, :deliver_at,
-                0, :max_attempts, 0
+                :attempts, :max_attempts, 0
             )
             """,
             {
@@ -231,6 +231,9 @@ class AtomicTransaction(StoreTransaction):
                 "message_type": message_type,
                 "payload": payload,
                 "deliver_at": deliver_at.isoformat(),
+                # A retry message carries the attempts already used; the payload
+                # copy is stripped on delivery, so the row column is what counts.
+                "attempts": getattr(message, "attempts", 0) or 0,
                 "max_attempts": getattr(message, "max_attempts", 10),
             },
         )
